@@ -927,7 +927,7 @@ func main() {
 
 	// sampled larger sizes up to 2000
 	big := []int{63, 64, 65, 127, 128, 129, 255, 256, 257, 511, 512, 513, 1000, 1023, 1024, 1025, 1999, 2000}
-	nb := o.Pick(5, 60)
+	nb := o.Pick(5, 24)
 	for k := 0; k < nb; k++ {
 		var n int
 		switch {
@@ -949,7 +949,7 @@ func main() {
 	}
 	lap("sampled")
 	// all sizes up to a bound, exhaustive proofs and mutations
-	exh := o.Pick(40, 130)
+	exh := o.Pick(40, 100)
 	for n := 1; n <= exh; n++ {
 		style := n % 4
 		x.tree(genKeys(x.r, n, style), fmt.Sprintf("style%d", style), n <= 64, 5)
